@@ -332,7 +332,7 @@ func (c *Ctx) codecArms(u *FuncUnit) (arms map[string]*armFacts, hasDefault, def
 func ruleR15(c *Ctx) {
 	m := c.m
 	props := []string{"C07", "C02", "C09"}
-	nCodec := 0
+	nCodec, nInterp := 0, 0
 	for _, name := range m.Pkg.Scope().Names() {
 		tn, ok := m.Pkg.Scope().Lookup(name).(*types.TypeName)
 		if !ok {
@@ -348,16 +348,22 @@ func ruleR15(c *Ctx) {
 		}
 		tArms, tDef, tDefPanics, tFound := c.codecArms(tu)
 		rArms, rDef, rDefPanics, rFound := c.codecArms(ru)
-		if !tFound && !rFound {
+		if !tFound && !rFound && !c.numericCodec(named) {
 			continue // not a numeric codec (alpha, collation)
 		}
 		nCodec++
 		set := typeSetOf(named.TypeParams().At(0))
+		followed := map[string]bool{} // key types whose code the abstract interpreter follows to a result
+		for _, t := range set {
+			if v := c.interpretCodecArm(tu, ru, t); v.decided {
+				followed[t.String()] = true
+			}
+		}
 		// (i) exhaustiveness
 		for dir, arms := range map[string]map[string]*armFacts{"Transform": tArms, "Restore": rArms} {
 			var missing []string
 			for _, t := range set {
-				if arms[t.String()] == nil {
+				if arms[t.String()] == nil && !followed[t.String()] {
 					missing = append(missing, t.String())
 				}
 			}
@@ -381,11 +387,36 @@ func ruleR15(c *Ctx) {
 		for _, t := range set {
 			ts := t.String()
 			ta, ra := tArms[ts], rArms[ts]
+			// abstract interpretation of the arm on the classes of its key type (codecinterp.go)
+			verdict := c.interpretCodecArm(tu, ru, t)
+			ikey := fmt.Sprintf("%s[%s] is an order-preserving fixed-width encoding that Restore inverts", name, ts)
+			ipos := m.pos(tu.Decl.Pos())
+			if ta != nil {
+				ipos = m.pos(ta.pos)
+			}
+			switch {
+			case verdict.decided && verdict.ok:
+				nInterp++
+				c.r.ok("R15", ikey, ipos, "abstract interpretation per value class (m = the bits below the sign/top bit): "+verdict.detail, props...)
+			case verdict.decided:
+				nInterp++
+				c.r.bad("R15", ikey, ipos, verdict.detail, props...)
+			default:
+				c.r.note("R15: %s[%s] not followed by the abstract interpreter (%s); pattern clauses only", name, ts, verdict.unknown)
+			}
 			if ta == nil || ra == nil {
+				// no type-switch arm to apply the pattern clauses to (a dispatch on unsafe.Sizeof, a
+				// helper per width): the interpreter's verdict stands alone
+				if !verdict.decided {
+					c.r.undecided("R15", ikey, ipos, "no type-switch arm for this key type and the abstract interpreter could not follow the code: "+verdict.unknown, props...)
+				}
 				continue
 			}
 			W := ta.width
 			bitsW := 8 * W
+			// the pattern clauses below look for the constants of ONE way of writing the sign
+			// handling; where the interpreter has decided the arm they are informative only
+			interpOK := verdict.decided && verdict.ok
 			// width of the produced slice
 			key := fmt.Sprintf("%s[%s] encoding is %d bytes", name, ts, W)
 			lens := append(append([]int64{}, ta.makeLens...), ta.litLens...)
@@ -453,6 +484,8 @@ func ruleR15(c *Ctx) {
 					key := fmt.Sprintf("%s[%s].%s flips exactly the sign bit", name, ts, dir)
 					if len(af.xorConsts) == 1 && af.xorConsts[0] == signBit {
 						c.r.ok("R15", key, m.pos(af.pos), "^ 1<<"+fmt.Sprint(bitsW-1), props...)
+					} else if interpOK {
+						c.r.ok("R15", key, m.pos(af.pos), "written differently from `^ 1<<(w-1)`; the effect on both sign classes is established by the abstract interpretation of the arm", props...)
 					} else {
 						c.r.bad("R15", key, m.pos(af.pos), fmt.Sprintf("expected a single XOR with %s (1<<%d), found %v", signBit, bitsW-1, af.xorConsts), props...)
 					}
@@ -478,6 +511,8 @@ func ruleR15(c *Ctx) {
 					}
 					if okSign && okShift {
 						c.r.ok("R15", key, m.pos(af.pos), fmt.Sprintf("| 1<<%d, >> %d", bitsW-1, bitsW-1), props...)
+					} else if interpOK {
+						c.r.ok("R15", key, m.pos(af.pos), "written without the mask-and-shift idiom; the effect on every value class is established by the abstract interpretation of the arm", props...)
 					} else {
 						c.r.bad("R15", key, m.pos(af.pos), fmt.Sprintf("expected sign constant %s and shift %d, found constants %v shifts %v", signBit, bitsW-1, af.xorConsts, af.shifts), props...)
 					}
@@ -533,7 +568,7 @@ func ruleR15(c *Ctx) {
 			}
 		}
 	}
-	c.r.note("R15: %d numeric codecs", nCodec)
+	c.r.note("R15: %d numeric codecs, %d arms decided by abstract interpretation", nCodec, nInterp)
 	c.r.floor("R15", 3*2+12*2, "codec arm facts", "C07")
 }
 
@@ -542,4 +577,19 @@ func (a *armFacts) addConsts0() string {
 		return a.addConsts[0]
 	}
 	return ""
+}
+
+// numericCodec: every term of the codec's key constraint is a numeric basic type.
+func (c *Ctx) numericCodec(named *types.Named) bool {
+	set := typeSetOf(named.TypeParams().At(0))
+	if len(set) == 0 {
+		return false
+	}
+	for _, t := range set {
+		b, ok := t.Underlying().(*types.Basic)
+		if !ok || b.Info()&types.IsNumeric == 0 {
+			return false
+		}
+	}
+	return true
 }
